@@ -69,7 +69,7 @@ def programs(tier: str) -> tuple[list[dict], dict]:
     stats["random_programs"] = k
     if tier == "thorough":
         lib = dp.library(("str", "class", "frozenset", "int", "tuple", "dataclass", "mixed"))
-        bs, st = dp.generate("sim17", simulate=400, MaxRanks=4, MaxOps=6, NTags=3,
+        bs, st = dp.generate("sim17", simulate=200, MaxRanks=4, MaxOps=6, NTags=3,
                              Variants=True, MinOps=2, Exhaustive=False)
     else:
         lib = dp.library(("class", "frozenset")) + dp.library(("str", "tuple"))[::3]
